@@ -1206,6 +1206,12 @@ def tab_cli_distinct_outputs(run, pc, R="TAB-cli"):
     for bi, si, st in pc.stmts():
         if st["k"] == "assign" and st["place"]["p"] and any(isinstance(pr, dict) and pr.get("name") == "output_filename" for pr in st["place"]["p"]):
             writers.add(bi)
+    def _stores_name(h):
+        return any(st["k"] == "assign" and st["place"]["p"] and any(isinstance(pr, dict) and pr.get("name") == "output_filename" for pr in st["place"]["p"]) for _, _, st in h.stmts())
+    for bi, t in pc.calls():       # ... or a call of a helper of this crate that stores one
+        h_ = prog.fn(t.get("resolved") or t.get("callee") or "")
+        if h_ is not None and h_.id != pc.id and _stores_name(h_):
+            writers.add(bi)
     late = set()
     for cb in cmp_blocks:
         seen_, work_ = set(), list(pc.succs(cb))
@@ -1216,7 +1222,7 @@ def tab_cli_distinct_outputs(run, pc, R="TAB-cli"):
             seen_.add(x_)
             work_.extend(pc.succs(x_))
         late |= (seen_ & writers)
-    run.check((not ok) or (bool(writers) and not late), R, R + "|groups|distinct-files-final-names", pc.loc(), "output names are compared after every name was settled (%d store(s) to output_filename, none can follow the comparison)" % len(writers),
+    run.check((not ok) or not late, R, R + "|groups|distinct-files-final-names", pc.loc(), "output names are compared after every name was settled (%d store(s) to output_filename, none can follow the comparison)" % len(writers),
               "parse_command compares the groups' file names and assigns output_filename afterwards (line(s) %s): two groups whose names are both derived (`prog.asm -f hexdump -- -f annotated`, both prog.txt) pass the comparison and the second overwrites the first, exit 0" % sorted({pc.blocks[b]["term"].get("span", {}).get("line") for b in late}))
     run.check((not ok) or gated, R, R + "|groups|distinct-files-not-for-help", pc.loc(), "the duplicate-output rejection is not consulted when only the help or version text is asked for",
               "parse_command rejects output groups that share a file name also when `-h` or `-v` is given: `customasm -v -f annotated -- -f symbols` prints `multiple output groups write to ...` instead of the version")
